@@ -34,6 +34,12 @@ pub struct Sess {
     pub evict_direct: bool,
     /// the calls of the straight-line script the next EVAL consists of (set by the generator)
     pub script_parts: Option<Vec<Command>>,
+    /// the executor transcription (`Model.Executor`, `XC` lines) follows this session: set by
+    /// `reset` / `reset_with_epoch`, which emit the `XCFG` line
+    pub xc: bool,
+    /// every clock move since the last emitted op (the transcription needs all of them, also a
+    /// `set_time` to the same instant: it evicts)
+    pub pending_clock: Vec<(u64, &'static str)>,
 }
 
 /// the public entry points of `CommandExecutor` that run a data command
@@ -102,7 +108,7 @@ impl Sess {
             }
         }
         ex.set_time(VirtualTime::from_millis(now));
-        Sess { ex, now, moved: None, epoch_ms: cfg.ms(), via: Via::Execute, last_entry: "execute", evict_direct: false, script_parts: None }
+        Sess { ex, now, moved: None, epoch_ms: cfg.ms(), via: Via::Execute, last_entry: "execute", evict_direct: false, script_parts: None, xc: false, pending_clock: Vec::new() }
     }
 
     /// Unix time in ms as the executor sees it (what the reference model calls `now`)
@@ -115,6 +121,9 @@ impl Sess {
     pub fn set_now(&mut self, t: u64, evict: bool) {
         self.moved = if t != self.now || !evict { Some(evict) } else { None };
         self.now = t;
+        if self.xc {
+            self.pending_clock.push((t, if evict { if self.evict_direct { "evict_expired_direct" } else { "set_time" } } else { "update_time_readonly" }));
+        }
         if evict {
             if self.evict_direct {
                 self.ex.evict_expired_direct(VirtualTime::from_millis(t));
@@ -186,6 +195,34 @@ impl Sess {
             s.push_str(&p);
         }
         s
+    }
+}
+
+impl Sess {
+    /// the PHYSICAL content of `data` (every key, also those past their deadline but not evicted):
+    /// `<n> {<key> <pttl | -1 | dead> <value>}`; non-mutating entry points only
+    pub fn phys_dump(&mut self) -> String {
+        let mut keys: Vec<String> = self.ex.get_data().keys().cloned().collect();
+        keys.sort_by(|a, b| key_cmp(a, b));
+        let mut s = keys.len().to_string();
+        for k in keys {
+            let vis = matches!(self.ex.execute_readonly(&Command::Exists(vec![k.clone()])), RespValue::Integer(1));
+            let ttl = if vis { self.pttl(&k).to_string() } else { "dead".to_string() };
+            let v = self.ex.get_data().get(&k).map(value_text).unwrap_or_default();
+            s.push_str(&format!(" {} {} {}", hex(k.as_bytes()), ttl, v));
+        }
+        s
+    }
+
+    /// `expirations.len()` as INFO reports it (`keys_with_expiration`)
+    pub fn nexp(&mut self) -> String {
+        match self.ex.execute(&Command::Info) {
+            RespValue::BulkString(Some(b)) => String::from_utf8_lossy(&b)
+                .lines()
+                .find_map(|l| l.strip_prefix("keys_with_expiration:").map(|x| x.trim().to_string()))
+                .unwrap_or_else(|| "?".into()),
+            _ => "?".into(),
+        }
     }
 }
 
@@ -1372,6 +1409,9 @@ pub fn do_step(out: &mut Out, s: &mut Sess, cmd: &Command, prop: &str, seq: &[St
             "clock".to_string(),
         );
     }
+    for (t, kind) in std::mem::take(&mut s.pending_clock) {
+        out.op(format!("XCLK {} {}", t, kind), "xclk".to_string());
+    }
     ZSET_INCONSISTENT.lock().unwrap().clear();
     let before = s.dump();
     let now = s.unix();
@@ -1435,6 +1475,27 @@ pub fn do_step(out: &mut Out, s: &mut Sess, cmd: &Command, prop: &str, seq: &[St
         None => "adopt".to_string(),
     };
     out.op(opline.clone(), implline);
+    // the transcription of the executor as it is (`Model.Executor`): same command from ITS OWN state
+    // (threaded through the whole sequence), compared on the reply, the physical key set and
+    // `expirations.len()`; after a command it does not cover it adopts the physical state
+    if s.xc {
+        let phys = s.phys_dump();
+        let xop = match (&r, &parts) {
+            (Some(rv), None) if !has_binary_name(cmd) => enc_cmd(cmd, rv),
+            _ => None,
+        };
+        match xop {
+            Some(o) => {
+                let nexp = s.nexp();
+                out.op(format!("{} XC {} ;; {}", s.now, o, phys), format!("{} | {} | nexp={}", reply, phys, nexp));
+                out.count("xc:executor-transcription-op");
+            }
+            None => {
+                out.op(format!("{} XADOPT ;; {}", s.now, phys), "xadopt".to_string());
+                out.count("xc:adopt");
+            }
+        }
+    }
     // C17 oracle on the real code
     if r.is_none() {
         out.violation(
@@ -1476,13 +1537,15 @@ pub fn do_step(out: &mut Out, s: &mut Sess, cmd: &Command, prop: &str, seq: &[St
 
 /// start a fresh executor; emits the RESET line
 pub fn reset(out: &mut Out, now: u64) -> Sess {
-    out.op("RESET".to_string(), "reset".to_string());
-    Sess::new(now)
+    reset_with_epoch(out, now, EpochCfg::Zero)
 }
 
 pub fn reset_with_epoch(out: &mut Out, now: u64, cfg: EpochCfg) -> Sess {
     out.op("RESET".to_string(), "reset".to_string());
-    Sess::with_epoch(now, cfg)
+    out.op(format!("XCFG {} {}", cfg.ms(), now), "xcfg".to_string());
+    let mut s = Sess::with_epoch(now, cfg);
+    s.xc = true;
+    s
 }
 
 /// generated configuration: mostly the default, else legal extremes and realistic values
